@@ -161,6 +161,9 @@ Definition known_tol (fname : string) : lk_event -> bool :=
   | None => no_tol
   end.
 
+(* functions covered by the instance without reservation: not lifecycle, not named in the finding *)
+Definition admitted (f : string) : bool := negb (is_lifecycle f) && negb (in_names f (map fst known_unlocked_reads)).
+
 (* the checks whose truth value the instance theorems state *)
 Definition paths_check (tolf : string -> lk_event -> bool) : bool :=
   forallb (fun p => is_lifecycle (fst p) || well_locked_tol (tolf (fst p)) (snd p)) lock_skeletons.
